@@ -1550,7 +1550,7 @@ func (meta *ConstantMeta) ReadMetaFrom(reader io.Reader) error {
 		return err
 	}
 	byteArr := make([]byte, length)
-	readCount, err := reader.Read(byteArr)
+	readCount, err := io.ReadFull(reader, byteArr)
 	if err != nil {
 
 		return err
